@@ -15,6 +15,8 @@ CLAIMED = {
          'Trusted: model catalogue (checked_*, rem_euclid, Option plumbing). Outside: constructor string parsing (regex, chrono), ip, decimal parsing.', '4 C07'),
  'C14': ('TPE response: classification of residual policies into the eight bucket sets and the residual map (one loop step from an arbitrary state, Residual::is_true/is_false/is_error executed from MIR), completion-quantified decision table, reason(), ResidualPolicy -> Policy conversion, policy_set() presents the residuals',
          'Trusted: environment stubs for iterator/HashMap/HashSet/PolicySet::add and uninterpreted Policy getters. Outside: tpe::Evaluator simplification rules, can_error_assuming_well_formed, consistency checks, query_* APIs.', '4 C14'),
+ 'C18': ('SymCC constant folding: symcc::bitvec::BitVec {add,sub,mul,udiv,urem,sdiv,srem,smod,neg,not,slt,sle,ult,ule,to_int,of_int,overflows} executed from the MIR of cedar-policy-symcc (num-bigint as SMT integers) against the SMT-LIB definitions at widths 1,2,8,64 (thorough: +3,32,128), and the factory overflow predicates bvsaddo/bvssubo/bvsmulo/bvnego on literal operands against the exact-integer overflow condition (= i64::checked_* returning None at width 64)',
+         'Trusted: big-integer model (mir2smt/bigint.py), SMT-LIB semantics as written in the obligations. Outside: compile(), SymEnv::from_concrete_env, verify_* assert builders, extension-type string parsing, shifts/extract/concat.', '4 C18'),
  'C20': ('panic-freedom of the cedar-policy-core kernels encoded for C01/C02/C07/C13/C14: every MIR assert / unwrap / expect / unreachable! / explicit panic on a feasible path is a failed obligation',
          'Narrow slice of C20: only the kernels listed in the evidence; parsers, error rendering, JSON/protobuf/FFI entry points and nesting limits are outside. Panics inside stubbed callees are invisible.', '4 C20'),
  'C08': ('policy-set edits: add, add_static, add_template, link, unlink, remove_static, remove_template each executed from MIR over abstract maps (SMT arrays over an uninterpreted id sort) from an ARBITRARY state satisfying a 9-conjunct representation invariant: invariant preserved, failed operation changes nothing, successful one changes exactly the named ids (inductive step => histories of any length)',
@@ -34,7 +36,6 @@ NA = {
  'C15': 'typechecker + TPE evaluator + loader loop with iterator/closure bodies; its only encodable piece (tpe::Response decision table) belongs to C14',
  'C16': 'machinery not built yet (level calculus per node planned, see DESIGN.md section 4)',
  'C17': 'feature-gated analysis over typed ASTs plus evaluation over sliced stores',
- 'C18': 'machinery not built yet (BitVec vs SMT-LIB semantics planned, see DESIGN.md section 4)',
  'C19': 'serde_json, the parser, thread-local caches, process exit codes',
 }
 checks = []
